@@ -152,7 +152,8 @@ RebuiltOK(d, pre, post) ==
                        ELSE IsRebuiltLinear(post, self, par, ftd, g, x)
             cap == g.bs - g.tail
             \* blocks at the end that hold nothing but one unused slot
-            Trail == Cardinality({j \in 2..Len(post.b) : \A k \in j..Len(post.b) : post.b[k] = <<Empty(cap)>>})
+            Trail == Cardinality({j \in 2..Len(post.b) : \A k \in j..Len(post.b) : /\ post.b[k] = <<Empty(cap)>>
+                                                                                     /\ (post.dx = NoDx \/ (k - 1) \notin DOMAIN post.dx.nodes)})
         IN IF d # LostFound THEN Form(0)
            ELSE Len(post.b) >= Len(pre.b) /\ (Trail > 0 => Len(post.b) = Len(pre.b)) /\ Form(Trail)
 TFsckD ==
